@@ -45,7 +45,9 @@ Fixpoint scan_str (q : char) (cur : N) (rest : str) : option (N * str) :=
   | [] => None
   end.
 
-Definition not_ws_delim (c : char) : bool := negb (is_ws c || is_delim c).
+(* is_word_end_char: an operator spelled as a word ends at whitespace, a delimiter, or one of the separators , ; : *)
+Definition word_end (c : char) : bool := is_ws c || is_delim c || (c =? c_comma) || (c =? c_semi) || (c =? 58).
+Definition not_ws_delim (c : char) : bool := negb (word_end c).
 
 (* is the next non-whitespace character '(' ?  (function_or_reference_token) *)
 Definition next_is_lparen (cur : N) (rest : str) : bool :=
